@@ -227,6 +227,7 @@ pub fn run(opts: &HashMap<String, String>) -> i32 {
                     variant(&base, Policy::Full, "full", 1, 0, s),
                     variant(&base, Policy::Random(5), "random5", 64, 200, s),
                     variant(&base, Policy::Random(7), "random7", [65537usize, 1 << 20][rng.gen_range(0..2)], 300, s ^ 3),
+                    variant(&base, Policy::Random(11), "random11", [12usize, 16, 24, 32][rng.gen_range(0..4)], 0, s ^ 5),
                 ];
                 for (k, v) in vs.iter().enumerate() {
                     let mut v = v.clone();
